@@ -1,16 +1,16 @@
 (* C08 — the admin verdict memo: every verdict IsAdminUser hands out, in any history of
    queries, is backed by what the directory said (or by its failure) less than maxDuration ago. *)
-From KM Require Import Base.Tactics Model.AdminCache.
+From KM Require Import Base.Bytes Base.Tactics Model.AdminCache.
 Import ListNotations.
 Open Scope Z_scope.
 
 (* ---- specification side (does not mention the cache) ---- *)
 
 (* the verdict the most recent earlier query about u received (false if there is none) *)
-Fixpoint last_verdict (hist : list obs) (u : N) : bool :=
+Fixpoint last_verdict (hist : list obs) (u : bs) : bool :=
   match hist with
   | [] => false
-  | o :: r => if N.eqb (q_user (o_q o)) u then o_v o else last_verdict r u
+  | o :: r => if bs_eqb (q_user (o_q o)) u then o_v o else last_verdict r u
   end.
 
 (* verdict v for query q, after the earlier queries hist, is justified when
@@ -84,8 +84,8 @@ Lemma cache_inv_put d hist q v :
   cache_inv (put (Some d) (q_tp q) (q_user q) v) ({| o_q := q; o_v := v |} :: hist).
 Proof.
   intros Hc Hraw u. simpl.
-  destruct (N.eqb (q_user q) u) eqn:Eu.
-  - apply N.eqb_eq in Eu. simpl. split; [reflexivity|].
+  destruct (bs_eqb (q_user q) u) eqn:Eu.
+  - apply bs_eqb_eq in Eu. simpl. split; [reflexivity|].
     intros _. exists {| o_q := q; o_v := v |}. simpl. auto 6.
   - destruct (Hc u) as [Ha Hs]. split; [exact Ha|].
     intros Hnz. destruct (Hs Hnz) as [o [Hin Ho]]. exists o. split; [right; exact Hin|exact Ho].
@@ -97,8 +97,8 @@ Lemma cache_inv_keep d hist q :
 Proof.
   intros Hc u. simpl.
   destruct (Hc u) as [Ha Hs].
-  destruct (N.eqb (q_user q) u) eqn:Eu.
-  - apply N.eqb_eq in Eu. subst u. split; [reflexivity|].
+  destruct (bs_eqb (q_user q) u) eqn:Eu.
+  - apply bs_eqb_eq in Eu. subst u. split; [reflexivity|].
     intros Hnz. destruct (Hs Hnz) as [o [Hin Ho]]. exists o. split; [right; exact Hin|exact Ho].
   - split; [exact Ha|].
     intros Hnz. destruct (Hs Hnz) as [o [Hin Ho]]. exists o. split; [right; exact Hin|exact Ho].
@@ -192,8 +192,8 @@ Lemma last_verdict_in hist u : last_verdict hist u = true ->
   exists o, In o hist /\ q_user (o_q o) = u /\ o_v o = true.
 Proof.
   induction hist as [|x r IH]; intros H; [discriminate|]. simpl in H.
-  destruct (N.eqb (q_user (o_q x)) u) eqn:Eu.
-  - apply N.eqb_eq in Eu. exists x. split; [left; reflexivity|auto].
+  destruct (bs_eqb (q_user (o_q x)) u) eqn:Eu.
+  - apply bs_eqb_eq in Eu. exists x. split; [left; reflexivity|auto].
   - destruct (IH H) as [o [Hin Ho]]. exists o. split; [right; exact Hin|exact Ho].
 Qed.
 
@@ -220,4 +220,109 @@ Proof.
       exists o2. split; [exact Hi2|]. split; [congruence|exact Hr2].
     + discriminate.
   - apply Hlift. apply (IH Hj o Hin Hv).
+Qed.
+
+(* ---- the two role questions over the shared memo ---- *)
+
+(* the cache and the administrator evaluations of a role history are those of the plain
+   IsAdminUser history over the same queries: asking "automation administrator?" adds nothing
+   to the memo but an administrator evaluation *)
+Lemma rrun_is_hrun maxd rs : forall c0 (racc : list robs),
+  fst (fold_left (rstep maxd) rs (c0, racc)) = fst (fold_left (hstep maxd) (map rq_q rs) (c0, map admin_obs racc)) /\
+  map admin_obs (snd (fold_left (rstep maxd) rs (c0, racc))) =
+  snd (fold_left (hstep maxd) (map rq_q rs) (c0, map admin_obs racc)).
+Proof.
+  induction rs as [|r rest IH]; intros c0 racc; simpl; [split; reflexivity|].
+  unfold rstep at 2 4. unfold hstep at 2 4. unfold role_step. simpl fst. simpl snd.
+  destruct (is_admin_user maxd c0 (rq_q r)) as [c' adm] eqn:E.
+  specialize (IH c' ({| ro_q := r; ro_adm := adm; ro_ans := match rq_kind r with KAdmin => adm | KAutoAdmin => adm || rq_listed r end |} :: racc)).
+  simpl in IH. exact IH.
+Qed.
+
+Lemma rrun_admin_obs maxd c0 rs :
+  map admin_obs (snd (rrun maxd c0 rs)) = snd (hrun maxd c0 (map rq_q rs)).
+Proof. unfold rrun, hrun. exact (proj2 (rrun_is_hrun maxd rs c0 [])). Qed.
+
+(* the answer to "administrator?" is the administrator verdict of the memo, the answer to
+   "automation administrator?" is that verdict or the list *)
+Lemma rrun_answers maxd rs : forall c0 racc,
+  (forall o, In o racc -> ro_ans o = match rq_kind (ro_q o) with KAdmin => ro_adm o | KAutoAdmin => ro_adm o || rq_listed (ro_q o) end) ->
+  forall o, In o (snd (fold_left (rstep maxd) rs (c0, racc))) ->
+  ro_ans o = match rq_kind (ro_q o) with KAdmin => ro_adm o | KAutoAdmin => ro_adm o || rq_listed (ro_q o) end.
+Proof.
+  induction rs as [|r rest IH]; intros c0 racc Hacc o Hin; simpl in Hin; [apply Hacc; exact Hin|].
+  unfold rstep at 2 in Hin. unfold role_step in Hin. simpl fst in Hin. simpl snd in Hin.
+  destruct (is_admin_user maxd c0 (rq_q r)) as [c' adm] eqn:E.
+  eapply IH; [|exact Hin].
+  intros o' [<-|Ho']; [reflexivity|apply Hacc; exact Ho'].
+Qed.
+
+(* every "administrator" answer of every role history is justified by administrator evaluations
+   only: the directory / the configured list says so now; or less than maxd ago an administrator
+   evaluation about the same user gave that verdict; or the directory fails and the previous
+   administrator verdict (or a refusal) is repeated.  Lookups of any other kind never enter. *)
+Theorem roles_admin_justified maxd c0 rs pre o post :
+  min_dur < maxd <= max_dur -> (c0 = None \/ c0 = Some []) ->
+  snd (rrun maxd c0 rs) = pre ++ o :: post ->
+  rq_kind (ro_q o) = KAdmin ->
+  justified maxd (map admin_obs post) (rq_q (ro_q o)) (ro_ans o).
+Proof.
+  intros Hm H0 Hs Hk.
+  assert (Hans : ro_ans o = ro_adm o).
+  { assert (Hin : In o (snd (rrun maxd c0 rs))) by (rewrite Hs; apply in_or_app; right; left; reflexivity).
+    pose proof (rrun_answers maxd rs c0 [] (fun o H => match H with end) o Hin) as Ha.
+    rewrite Hk in Ha. exact Ha. }
+  rewrite Hans.
+  pose proof (cache_justified maxd c0 (map rq_q rs) Hm H0) as Hj.
+  rewrite <- rrun_admin_obs in Hj. rewrite Hs, map_app in Hj. simpl in Hj.
+  exact (all_justified_in maxd _ Hj (map admin_obs pre) (admin_obs o) (map admin_obs post) eq_refl).
+Qed.
+
+(* a granted "administrator" answer has a source: at this or an earlier role query of EITHER kind
+   about the same user, _IsAdminUser itself (configured name or group) said "administrator" *)
+Theorem roles_admin_has_source maxd c0 rs o :
+  min_dur < maxd <= max_dur -> (c0 = None \/ c0 = Some []) ->
+  In o (snd (rrun maxd c0 rs)) -> rq_kind (ro_q o) = KAdmin -> ro_ans o = true ->
+  exists o2, In o2 (snd (rrun maxd c0 rs)) /\ q_user (rq_q (ro_q o2)) = q_user (rq_q (ro_q o)) /\
+             q_raw (rq_q (ro_q o2)) = Some true.
+Proof.
+  intros Hm H0 Hin Hk Hv.
+  assert (Hans : ro_ans o = ro_adm o).
+  { pose proof (rrun_answers maxd rs c0 [] (fun o H => match H with end) o Hin) as Ha.
+    rewrite Hk in Ha. exact Ha. }
+  pose proof (cache_justified maxd c0 (map rq_q rs) Hm H0) as Hj.
+  rewrite <- rrun_admin_obs in Hj.
+  assert (Hin' : In (admin_obs o) (map admin_obs (snd (rrun maxd c0 rs)))) by (apply in_map; exact Hin).
+  assert (Hv' : o_v (admin_obs o) = true) by (simpl; congruence).
+  destruct (granted_has_source maxd _ Hj (admin_obs o) Hin' Hv') as [x [Hx [Hu Hr]]].
+  apply in_map_iff in Hx. destruct Hx as [o2 [<- Hi2]].
+  exists o2. simpl in Hu, Hr. auto.
+Qed.
+
+(* the observations of a role history are about the queries of the history *)
+Lemma rrun_queries maxd c0 rs o : In o (snd (rrun maxd c0 rs)) -> In (ro_q o) rs.
+Proof.
+  unfold rrun. intros Hi.
+  assert (G : forall l c racc x, In x (snd (fold_left (rstep maxd) l (c, racc))) -> In x racc \/ In (ro_q x) l).
+  { induction l as [|r rest IH]; intros c racc x Hx; simpl in Hx; [left; exact Hx|].
+    unfold rstep at 2 in Hx. simpl fst in Hx. simpl snd in Hx.
+    destruct (role_step maxd c r) as [c' [adm ans]].
+    destruct (IH _ _ _ Hx) as [[<-|H]|H]; [right; left; reflexivity|left; exact H|right; right; exact H]. }
+  destruct (G rs c0 [] o Hi) as [[]|H]. exact H.
+Qed.
+
+(* hence: somebody about whom no administrator evaluation ever says "administrator" is never
+   answered "administrator" — however many "automation administrator?" questions about them were
+   answered yes in between *)
+Corollary roles_never_promoted maxd c0 rs u :
+  min_dur < maxd <= max_dur -> (c0 = None \/ c0 = Some []) ->
+  (forall r, In r rs -> q_user (rq_q r) = u -> q_raw (rq_q r) <> Some true) ->
+  forall o, In o (snd (rrun maxd c0 rs)) -> rq_kind (ro_q o) = KAdmin -> q_user (rq_q (ro_q o)) = u ->
+  ro_ans o = false.
+Proof.
+  intros Hm H0 Hnever o Hin Hk Hu.
+  destruct (ro_ans o) eqn:Hv; [|reflexivity]. exfalso.
+  destruct (roles_admin_has_source maxd c0 rs o Hm H0 Hin Hk Hv) as [o2 [Hi2 [Hu2 Hr2]]].
+  assert (Hq : In (ro_q o2) rs) by (apply (rrun_queries maxd c0 rs o2 Hi2)).
+  apply (Hnever (ro_q o2) Hq); congruence.
 Qed.
